@@ -22,6 +22,7 @@ inductive Step
   | decode       -- ltx.NewCompactor/Compact ‖ dec.DecodeDatabaseTo(f)
   | fsync        -- f.Sync()
   | close        -- f.Close()
+  | rmSidecars   -- removeStaleSidecars(opt.OutputPath) — only in a tree carrying proposed-fixes/C10-foreign-wal.diff
   | rename       -- os.Rename(tmpOutputPath, opt.OutputPath)
   | fsyncDir     -- internal.FsyncDir(filepath.Dir(opt.OutputPath))
   | integrity    -- checkIntegrity; on failure (ctx alive) remove output, -shm, -wal
@@ -30,6 +31,12 @@ deriving DecidableEq, Repr
 def restoreSteps : List Step :=
   [.statOutput, .calcPlan, .sizeCheck, .mkdirParent, .deferRmTmp, .createTmp, .decode, .fsync, .close,
    .rename, .fsyncDir, .integrity]
+
+/-- the step list with the stale `-wal`/`-shm` removed before the output is published
+    (proposed-fixes/C10-foreign-wal.diff) -/
+def restoreStepsFixed : List Step :=
+  [.statOutput, .calcPlan, .sizeCheck, .mkdirParent, .deferRmTmp, .createTmp, .decode, .fsync, .close,
+   .rmSidecars, .rename, .fsyncDir, .integrity]
 
 /-- what `Restore` removes when the integrity check fails, in source order -/
 inductive Victim | output | shm | wal
@@ -68,6 +75,9 @@ structure Inputs (D : Type) where
   sidecarWal : Bool           -- SQLite left a -wal behind during the check
   sidecarShm : Bool
   ctxCancelled : Bool         -- ctx.Err() != nil when the check fails
+  walPre : Bool               -- a (valid) `<output>-wal` exists before the call although `<output>` does not
+  shmPre : Bool               -- likewise `<output>-shm`
+  hotWal : D → D              -- what SQLite makes of a database when it recovers that WAL next to it
   decodePanics : Bool         -- the ltx library panics inside the compactor goroutine (replica.go:740) instead of
                               -- returning an error (observed: ltx v0.5.2 Decoder.Close on a file cut < 8 bytes
                               -- after its page block) — the process dies
@@ -79,7 +89,7 @@ structure State (D : Type) where
   crashed : Bool := false     -- process died: deferred calls do not run
 
 def initFs {D : Type} (inp : Inputs D) : Fs D :=
-  ⟨if inp.outPre then .pre else .absent, if inp.tmpPre then .pre else .absent, false, false⟩
+  ⟨if inp.outPre then .pre else .absent, if inp.tmpPre then .pre else .absent, inp.walPre, inp.shmPre⟩
 
 /-- Effect of one step on a state that has not failed yet. -/
 def exec {D : Type} (inp : Inputs D) (s : Step) (st : State D) : State D :=
@@ -101,18 +111,24 @@ def exec {D : Type} (inp : Inputs D) (s : Step) (st : State D) : State D :=
     | _, _ => fail
   | .fsync => if inp.fails s then fail else st
   | .close => if inp.fails s then fail else st
+  | .rmSidecars => if inp.fails s then fail else { st with fs := { st.fs with wal := false, shm := false } }
   | .rename => if inp.fails s then fail else { st with fs := { st.fs with out := st.fs.tmp, tmp := .absent } }
   | .fsyncDir => if inp.fails s then fail else st
   | .integrity =>
     if !inp.integrityOn then st
     else
-      let ok := match st.fs.out with
-        | .complete d => !inp.fails s && inp.integrityOk d
-        | _ => false
-      if ok then { st with fs := { st.fs with wal := false, shm := false } }
-      else if inp.ctxCancelled then
-        { st with fs := { st.fs with wal := inp.sidecarWal, shm := inp.sidecarShm }, err := some (.step s) }
-      else { st with fs := { st.fs with out := .absent, wal := false, shm := false }, err := some (.step s) }
+      -- the check opens the file with SQLite: a WAL lying next to it is hot, is recovered, judged, and
+      -- checkpointed into the file when the connection closes
+      match st.fs.out with
+      | .complete d =>
+        let d' := if st.fs.wal then inp.hotWal d else d
+        if !inp.fails s && inp.integrityOk d' then
+          { st with fs := { st.fs with out := .complete d', wal := false, shm := false } }
+        else if inp.ctxCancelled then
+          { st with fs := { st.fs with wal := inp.sidecarWal, shm := inp.sidecarShm }, err := some (.step s) }
+        else { st with fs := { st.fs with out := .absent, wal := false, shm := false }, err := some (.step s) }
+      | _ => -- unreachable: the check runs after the rename
+        { st with fs := { st.fs with out := .absent, wal := false, shm := false }, err := some (.step s) }
 
 def runSteps {D : Type} (inp : Inputs D) : List Step → State D → State D
   | [], st => st
@@ -126,13 +142,16 @@ def finish {D : Type} (st : State D) : State D :=
   if st.crashed then st else
   if st.deferRm then { st with fs := { st.fs with tmp := .absent } } else st
 
-/-- `Replica.Restore`: final file-system state and result. -/
-def restore {D : Type} (inp : Inputs D) : Fs D × Except Err D :=
-  let st := finish (runSteps inp restoreSteps ⟨initFs inp, false, none, false⟩)
+/-- `Replica.Restore` with a given step list: final file-system state and result. -/
+def restoreWith {D : Type} (steps : List Step) (inp : Inputs D) : Fs D × Except Err D :=
+  let st := finish (runSteps inp steps ⟨initFs inp, false, none, false⟩)
   match st.err, st.fs.out with
   | some e, _ => (st.fs, .error e)
   | none, .complete d => (st.fs, .ok d)
   | none, _ => (st.fs, .error (.step .rename))   -- unreachable (`restore_ok_implies`)
+
+/-- `Replica.Restore` of the pinned tree -/
+def restore {D : Type} (inp : Inputs D) : Fs D × Except Err D := restoreWith restoreSteps inp
 
 def resultOk? {D : Type} : Except Err D → Option D
   | .ok d => some d
